@@ -41,10 +41,11 @@ def run(R):
                   "real build before it is reported")
     # ------------------------------------------------------------------ symmetry, sign, never NaN
     def build_sym(ab, u2):
-        o = E.Opts(stubs=st, mul_uf=ab)
+        # relational: sqrt only needs to be a function (same argument => same result), no contract
+        o = E.Opts(stubs={SQRT_SYM: (lambda ctx, args: SQRTF(args[0]))} if ab else st, mul_uf=ab, clz_uf=ab)
         c1, c2 = R.call(h, "hypot", [a, b], opts=o), R.call(h, u2, [a, b], opts=o)
         return Ob("%s/equals-hypot" % u2, "verify", [a, b], [c1, c2], D, c1.out == c2.out, abstract=ab, comm_lemmas=False,
-                  portfolio=("z3", "cvc5"), note="hypot(a,b) == hypot(b,a) == hypot(|a|,|b|) exactly")
+                  portfolio=("z3", "cvc5"), timeout=300, note="hypot(a,b) == hypot(b,a) == hypot(|a|,|b|) exactly")
     for u2 in ("hypot_rev", "hypot_abs"):
         ob = build_sym(True, u2)
         ob.fallback = lambda u2=u2: build_sym(False, u2)
